@@ -56,7 +56,7 @@ CHECKS = {
    text="Assemble index pairing (values with rows_e/columns_e, resp. assembly_e and column 0; matrix shapes) is decided from the extracted source on a recording receiver, against the index contracts proved in C03. Element integration is the real form machinery: exact arithmetic for three basic forms, run-time contracts for a grammar of ten bilinear and two linear forms (scalar and vector fields, position-dependent coefficient, trace/transpose variants) per element type against the real built-in operators with the same quadrature; Assemble vs scatter-add; weak-form simulations vs the dedicated thermal/elastic simulations in static, parabolic and hyperbolic use.",
    note="Form grammar bounded to the listed forms; 2-element patches / star patches; floats with 1e-12 (1e-10 for solves). Built-in operators are the oracle (their contracts are C01/C02).",
    technique="contract-based verification: extracted index code against proved callee contracts + exact / run-time contracts of the real forms against the real operators"),
- "C08": dict(level="proof", design="DESIGN.md 3/C08",
+ "C08": dict(level="other", design="DESIGN.md 3/C08",
    text="Element tables (origin, faces, surfaces of every element type) are decided exactly on the reference element from the extracted element files; the real normal / jacobian / measure code is run on exact rational and symbolic coordinates: measure and centre of every affine image with a symbolic matrix in both orientations, area of a QUAD4 with symbolic nodes against the shoelace polynomial, unit / orthogonal / right-handed / rotation-covariant normals; Translate / Rotate / Symmetry of Geoms are decided from the AST as isometries (Rotate proper, Symmetry involutive). Native run-time contracts (bounded) cover gmsh meshes of seeded random polygons with holes and prisms over them (area, perimeter, volume, centre, invariance under motions, closure and sign of boundary normals, boundaries reconstructed from volume faces, embedded surfaces), point location and interpolation (interior / edge / node queries, single, pair and batch, plain / rotated / mirrored / embedded meshes, distorted quadrangles and hexahedra, exact containment on lattice points) and Calc_projector.",
    note="Outwardness of gmsh-produced boundary groups and of mirrored meshes is violated (4 known findings). gmsh, KD-tree and least-squares are external; point location is bounded (seeded meshes, 24 queries each, 1e-6); serendipity elements are only required to reproduce linear fields on non-affine elements; hexahedra with planar faces only.",
    technique="contract-based verification: exact evaluation of extracted element tables + real geometry code run on exact rational / symbolic coordinates (polynomial identities by normal form) + symbolic execution of extracted rigid-motion functions + run-time contracts on native gmsh meshes"),
@@ -64,7 +64,7 @@ CHECKS = {
    text="The resultant lemma (partition of unity => nodal forces sum to the quadrature of the density) ties the clause to C06/C07 (z3). The point-load split is decided symbolically from the extracted source. Get_Elements_Nodes(exclusively=True) is enumerated exhaustively over every node subset of small meshes. Resultants, first moments, the 2-D thickness factor, stray nodes and the pressure resultant are run-time contracts of the real load API on gmsh-generated box meshes (boundary groups as generated, prism meshes with mixed TRI/QUAD boundary) against closed-form integrals, for constant, nodal-array and polynomial intensities.",
    note="Box domains with straight faces; intensities up to the rule's degree; one thickness; seeded random coefficients. gmsh is external. Beam Hermitian line loads not covered.",
    technique="contract-based verification: lemma over callee contracts + symbolic execution of extracted code + exhaustive bounded enumeration + run-time contracts on native runs"),
- "C04": dict(level="proof", design="DESIGN.md 3/C04",
+ "C04": dict(level="other", design="DESIGN.md 3/C04",
    text="The elimination solver __Solver_1 is executed from the extracted source in a formal block algebra (abstract blocks of any size, the linear solver replaced by its contract): the returned vector holds the prescribed values on the constrained dofs and satisfies the free rows. The known/unknown split, the node->dof lookup, the incremental Dirichlet values of Newton iterations, the orphan-node diagonal and the library solver call sites are decided from the extracted source. The multiplier solver __Solver_2 is run from the source on exact small systems and the system it hands to the linear solver compared structurally with [[A, aC'],[aC, 0]]; a z3 lemma carries that to 'constraints exact'. Native solves (bounded, run-time contracts) cover overlapping / duplicated conditions, orphan nodes, every installed iterative back end, multi-point constraints, beam connections and the Newton path.",
    note="Block model of sparse fancy indexing is trusted; iterative back ends are only compared on one problem at 1e-4; PETSc/pypardiso/MPI absent; lsq_linear not exercised.",
    technique="contract-based verification: symbolic execution of extracted solver code in a formal block algebra against the linear-solver contract + z3 lemma + bounded structural comparison + run-time contracts on native solves"),
